@@ -87,32 +87,57 @@ def rmSet (tbl : Table) (t : Name) : List Path :=
   | some tk => if tk.kind = .targets then tk.targets else []
   | none => []
 
-theorem taskClean_frame (tbl : Table) (dry : Bool) (t : Name) (st : World × List Ev) :
-    Frame (rmSet tbl t) st.1 (taskClean tbl dry t st).1 := by
+/-- in an effect-free table the actions of every task leave the tree alone -/
+theorem effFree_acts (tbl : Table) (h : effFree tbl = true) (t : Name) (tk : Task) (as : List Act)
+    (ht : tbl[t]? = some tk) (hk : tk.kind = .actions as) : ∀ a, a ∈ as → a.eff = none := by
+  have hm : tk ∈ tbl := List.mem_of_getElem? ht
+  simp only [effFree, List.all_eq_true] at h
+  have := h tk hm
+  simp only [hk, List.all_eq_true, Option.isNone_iff_eq_none] at this
+  exact this
+
+theorem runActs_free (dry : Bool) (t : Name) : ∀ (as : List Act) (k : Nat) (st : World × List Ev),
+    (∀ a, a ∈ as → a.eff = none) → (runActs dry t k as st).1 = st.1 := by
+  intro as
+  induction as with
+  | nil => intro k st _; rfl
+  | cons a as ih =>
+    intro k st h
+    simp only [runActs]
+    rw [ih _ _ (fun x hx => h x (List.mem_cons_of_mem _ hx))]
+    unfold runAct
+    have : a.eff = none := h a (by simp)
+    split
+    · cases dry <;> simp [this, applyEff]
+    · rfl
+
+theorem taskClean_frame (tbl : Table) (hfree : effFree tbl = true) (dry : Bool) (t : Name)
+    (st : World × List Ev) : Frame (rmSet tbl t) st.1 (taskClean tbl dry t st).1 := by
   unfold taskClean rmSet
-  cases tbl[t]? with
+  cases ht : tbl[t]? with
   | none => exact Frame.refl _ _
   | some tk =>
     simp only
     cases hk : tk.kind with
     | nothing => exact Frame.refl _ _
     | targets => simp only [if_true]; exact cleanTargets_frame dry t tk.targets st
-    | action w =>
+    | actions as =>
       simp only [reduceCtorEq, ↓reduceIte]
-      split <;> exact Frame.refl _ _
+      rw [runActs_free dry t as 0 st (effFree_acts tbl hfree t tk as ht hk)]
+      exact Frame.refl _ _
 
-theorem cleanOne_frame (tbl : Table) (dry forget : Bool) (st : World × List Ev) (t : Name) :
-    Frame (rmSet tbl t) st.1 (cleanOne tbl dry forget st t).1 := by
+theorem cleanOne_frame (tbl : Table) (hfree : effFree tbl = true) (dry forget : Bool) (st : World × List Ev)
+    (t : Name) : Frame (rmSet tbl t) st.1 (cleanOne tbl dry forget st t).1 := by
   unfold cleanOne
-  have h := taskClean_frame tbl dry t st
+  have h := taskClean_frame tbl hfree dry t st
   simp only
   split
   · exact ⟨h.fsub, h.fonly, h.dsub, h.donly⟩
   · exact h
 
-theorem cleanTasks_frame (tbl : Table) (dry forget : Bool) (order : List Name) (w : World) :
-    Frame (order.flatMap (rmSet tbl)) w (cleanTasks tbl dry forget order w).1 :=
-  foldl_frame (cleanOne tbl dry forget) (rmSet tbl) (cleanOne_frame tbl dry forget) order (w, [])
+theorem cleanTasks_frame (tbl : Table) (hfree : effFree tbl = true) (dry forget : Bool) (order : List Name)
+    (w : World) : Frame (order.flatMap (rmSet tbl)) w (cleanTasks tbl dry forget order w).1 :=
+  foldl_frame (cleanOne tbl dry forget) (rmSet tbl) (cleanOne_frame tbl hfree dry forget) order (w, [])
 
 /-! ### every target file of a cleaned `clean: True` task is gone afterwards -/
 theorem rmTarget_removes (t : Name) (st : World × List Ev) (p : Path) : p ∉ (rmTarget false t st p).1.files := by
@@ -165,10 +190,10 @@ theorem cleanOne_removes (tbl : Table) (forget : Bool) (st : World × List Ev) (
       · exact this
     · simp [hk] at hp
 
-theorem cleanTasks_removes (tbl : Table) (forget : Bool) (order : List Name) (w : World) (t : Name) (p : Path)
+theorem cleanTasks_removes (tbl : Table) (hfree : effFree tbl = true) (forget : Bool) (order : List Name) (w : World) (t : Name) (p : Path)
     (ht : t ∈ order) (hp : p ∈ rmSet tbl t) : p ∉ (cleanTasks tbl false forget order w).1.files := by
   unfold cleanTasks
-  exact foldl_removes (cleanOne tbl false forget) (rmSet tbl) (cleanOne_frame tbl false forget) p
+  exact foldl_removes (cleanOne tbl false forget) (rmSet tbl) (cleanOne_frame tbl hfree false forget) p
     (fun x => p ∈ rmSet tbl x) (fun st x hx => cleanOne_removes tbl forget st x p hx) order (w, []) ⟨t, ht, hp⟩
 
 end DoitModel.Clean
